@@ -7,7 +7,7 @@ LEVEL_TEXT = ("Coq theorems over the SMTP session + Deliver model, for every con
               "the deliveries made equal what the dialogue alone entitles (delivery_exact), only a DATA block answered 250 adds "
               "anything, one message per accepted storable recipient, no other mailbox changes; carried to the abstract store of C07 and "
               "through its two refinement theorems to both back-end models (store_holds_what_dialogue_entitles, "
-              "both_backends_agree_on_deliveries; with a mailbox cap: deliveries_reach_the_capped_store, capped_store_holds_most_recent_entitled, both_backends_agree_on_capped_deliveries; and the converse direction over any number of connections: every entry a mailbox holds is a delivery of one of the sessions to exactly that mailbox, of a block that stands in that session's bytes - any_sessions_to_read_interfaces, delivered_bodies_are_decoded_blocks, Proofs/EndToEnd.v) and to the DISK model of the file store: mail acknowledged with 250 is listed, in order, after any "
+              "both_backends_agree_on_deliveries; with a mailbox cap: deliveries_reach_the_capped_store, capped_store_holds_most_recent_entitled, both_backends_agree_on_capped_deliveries; and the converse direction over any number of connections: every entry a mailbox holds is a delivery of one of the sessions to exactly that mailbox, of a block that stands in that session's bytes - any_sessions_to_read_interfaces, delivered_bodies_are_decoded_blocks - and forward: every delivery of the dialogue is in the mailbox it names and is what REST and POP3 serve, every_delivery_is_readable; Proofs/EndToEnd.v) and to the DISK model of the file store: mail acknowledged with 250 is listed, in order, after any "
               "number of restarts (acknowledged_mail_survives_restart, with C10/C11's filedisk_refines_storespec); tied to the code by a byte-level "
               "correspondence check of whole SMTP dialogues against real sessions on both real stores, with the `entitled` "
               "specification evaluated on the implementation's own replies and store contents as the oracle")
